@@ -25,7 +25,8 @@ def run(prop, tier, seed, modules, level="other", jobs=16, extra_assumptions=(),
     findings = [f for f in load_known_findings(prop) if f.get("status") == "known" and f.get("ch_condition")]
     all_conds = []
     for mod, tmo, only in modules:
-        all_conds += ch.run_module(mod, tmo, jobs, only=only)
+        all_conds += ch.collect(mod, tmo, only)
+    ch.run_all(all_conds, jobs)
     by_name = {c.fn: c for c in all_conds}
     samples = []
     nontrivial = 0
